@@ -185,4 +185,21 @@ def Conn.invhyb (c : Conn K) : Prop :=
 
 end affine
 
+/-! ### existence pivots (G3) -/
+section pivots
+variable {K : Type} [Add K] [Mul K] [Neg K] [Sub K] [OfNat K 1]
+
+/-- the entry / determinant of an `X` matrix that must be non-zero for representation `P` of the
+    same two-port to exist (V/I representations; `1` on the diagonal).  Derivation: the right-hand
+    variables of `P` are, each, either a right-hand variable of `X` or a row of `m` applied to them;
+    the pivot is the determinant of that 2x2 change of variables (up to sign). -/
+def pivot : MRep → MRep → M2 K → K
+  | .A, .A, _ => 1 | .A, .B, m => m.det | .A, .G, m => m.a11 | .A, .H, m => m.a22 | .A, .Y, m => m.a12 | .A, .Z, m => m.a21
+  | .B, .A, m => m.det | .B, .B, _ => 1 | .B, .G, m => m.a22 | .B, .H, m => m.a11 | .B, .Y, m => m.a12 | .B, .Z, m => m.a21
+  | .G, .A, m => m.a21 | .G, .B, m => m.a12 | .G, .G, _ => 1 | .G, .H, m => m.det | .G, .Y, m => m.a22 | .G, .Z, m => m.a11
+  | .H, .A, m => m.a21 | .H, .B, m => m.a12 | .H, .G, m => m.det | .H, .H, _ => 1 | .H, .Y, m => m.a11 | .H, .Z, m => m.a22
+  | .Y, .A, m => m.a21 | .Y, .B, m => m.a12 | .Y, .G, m => m.a22 | .Y, .H, m => m.a11 | .Y, .Y, _ => 1 | .Y, .Z, m => m.det
+  | .Z, .A, m => m.a21 | .Z, .B, m => m.a12 | .Z, .G, m => m.a11 | .Z, .H, m => m.a22 | .Z, .Y, m => m.det | .Z, .Z, _ => 1
+end pivots
+
 end Lcapy.Spec
